@@ -1204,6 +1204,85 @@ theorem refT_g6 (tm : Py) (h : TmOK tm) (nm : String) (p : List Key) : G6 (refT 
   unfold TmOK at h
   simp [G6, refT, WLb, WLbArgs, WLbArg, h]
 
+/-! ### aggregates as operands: generic sub-element reference `mk` -/
+
+theorem rowsM_flat (mk : List Key → Py) (e : Elem) : (e.rowsM mk).flatten = e.paths.map mk := by
+  unfold Elem.rowsM Elem.paths
+  split
+  · simp only [List.map_map, Function.comp_def]
+    induction e.keys with
+    | nil => simp
+    | cons k ks ih => simp [ih]
+  · simp [List.map_flatten, List.map_map, Function.comp_def]
+
+theorem rowsM_rows (mk : List Key → Py) (e : Elem) (hi : e.inner.isEmpty = false) :
+    e.rowsM mk = e.pathRows.map fun l => l.map mk := by
+  simp [Elem.rowsM, hi, Elem.pathRows, List.map_map, Function.comp_def]
+
+theorem aggArrM_g6 (mk : List Key → Py) (hmk : ∀ p, WLb 0 (mk p) = true ∧ lvlH 0 (mk p) = 100)
+    (g : Agg) (e : Elem) (p : Py) (h : aggArrM mk g e = some p) : G6 p := by
+  have hflat : ∀ y ∈ (e.rowsM mk).flatten, WLb 0 y = true ∧ lvlH 0 y = 100 := by
+    intro y hy
+    rw [rowsM_flat] at hy
+    simp only [List.mem_map] at hy
+    obtain ⟨pth, _, rfl⟩ := hy
+    exact hmk pth
+  have hdisp : WLb 0 (e.displayM mk) = true ∧ WLbArg 0 (e.displayM mk) = true := by
+    unfold Elem.displayM
+    split
+    · have := WLbL_of_all _ (fun q hq => (hflat q hq).1)
+      simp [WLb, WLbArg, this]
+    · next hi =>
+      have hi' : e.inner.isEmpty = false := by simpa using hi
+      have : WLbL 0 ((e.rowsM mk).map Py.list) = true := by
+        apply WLbL_of_all
+        intro q hq
+        simp only [List.mem_map] at hq
+        obtain ⟨row, hrow, rfl⟩ := hq
+        simp only [WLb]
+        apply WLbL_of_all
+        intro y hy
+        exact (hflat y (List.mem_flatten.mpr ⟨row, hrow, hy⟩)).1
+      simp [WLb, WLbArg, this]
+  cases g with
+  | sum =>
+    simp only [aggArrM, Option.map_eq_some_iff] at h
+    obtain ⟨c, hc, rfl⟩ := h
+    refine ⟨?_, by simp⟩
+    simp only [WLb]
+    exact chain_wl .add (Or.inl rfl) _ c (fun y hy => by
+      have := hflat y hy; exact ⟨this.1, by rw [this.2]; simp [rbp, bp]⟩) hc
+  | prod =>
+    simp only [aggArrM, Option.map_eq_some_iff] at h
+    obtain ⟨c, hc, rfl⟩ := h
+    refine ⟨?_, by simp⟩
+    simp only [WLb]
+    exact chain_wl .mul (Or.inr rfl) _ c (fun y hy => by
+      have := hflat y hy; exact ⟨this.1, by rw [this.2]; simp [rbp, bp]⟩) hc
+  | mean => simp only [aggArrM, Option.some.injEq] at h; subst h; simp [G6, npCall, WLb, WLbArgs, hdisp.2]
+  | median => simp only [aggArrM, Option.some.injEq] at h; subst h; simp [G6, npCall, WLb, WLbArgs, hdisp.2]
+  | std => simp only [aggArrM, Option.some.injEq] at h; subst h; simp [G6, npCall, WLb, WLbArgs, hdisp.2]
+  | size => simp only [aggArrM, Option.some.injEq] at h; subst h; simp [G6, natPy, WLb]
+  | rank neg k =>
+    simp only [aggArrM, Option.some.injEq] at h; subst h
+    have := WLbL_of_all _ (fun q hq => (hflat q hq).1)
+    simp [G6, WLb, WLbArgs, WLbArg, rankIndexPy_wl, this]
+
+theorem aggTermT_g6 (tm : Py) (htm : TmOK tm) (g : Agg) (e : Elem) (p : Py) (h : aggTermT tm g e = some p) : G6 p := by
+  unfold aggTermT at h
+  split at h
+  · exact aggArrM_g6 _ (fun pth => by have := refT_g6 tm htm e.name pth; exact ⟨this.1, by simp [refT]⟩) g e p h
+  · simp only [Option.some.injEq] at h; subst h
+    have := refT_g6 tm htm e.name []
+    cases g <;> simp [aggScalarM, G6, WLb, this.1]
+
+/-- at time `t` the generic aggregate text is the wave-1 `aggTerm` -/
+theorem aggTermT_now (g : Agg) (e : Elem) : aggTermT tNow g e = aggTerm g e := by
+  unfold aggTermT aggTerm
+  split
+  · cases g <;> rfl
+  · cases g <;> rfl
+
 theorem subT_g6 (tm : Py) (h : TmOK tm) (e : Elem) (idx : List Key) (p : Py) (hp : e.subT tm idx = some p) : G6 p := by
   simp only [Elem.subT, Option.map_eq_some_iff] at hp
   obtain ⟨q, _, rfl⟩ := hp
@@ -1214,6 +1293,7 @@ theorem subEl_g6 (tm : Py) (h : TmOK tm) (x : Ex) (idx : List Key) (p : Py) (hp 
   | el e => exact subT_g6 tm h e idx p hp
   | num n l => simp [Ex.subEl] at hp
   | op f a b => simp [Ex.subEl] at hp
+  | agg g e => simp [Ex.subEl] at hp
 
 theorem opt2_g6 (f : Py → Py → Py) (hf : ∀ x y, G6 x → G6 y → G6 (f x y)) (ox oy : Option Py)
     (hx : ∀ x, ox = some x → G6 x) (hy : ∀ y, oy = some y → G6 y) (p : Py) (h : opt2 f ox oy = some p) : G6 p := by
@@ -1240,6 +1320,7 @@ theorem Ex.term_g6 (tm : Py) (h : TmOK tm) (x : Ex) : ∀ (I : Option (List Key)
   induction x with
   | num n l => intro I p hp; simp only [Ex.term, Option.some.injEq] at hp; subst hp; exact numPy_g6 n l
   | el e => intro I p hp; simp only [Ex.term, Option.some.injEq] at hp; subst hp; exact refT_g6 tm h _ _
+  | agg g e => intro I p hp; simp only [Ex.term] at hp; exact aggTermT_g6 tm h g e p hp
   | op f a b iha ihb =>
     intro I p hp
     have hopA : ∀ (c : Bool) idx q, (if c = true then a.subEl tm idx else a.term tm I) = some q → G6 q := by
@@ -1338,6 +1419,17 @@ theorem Ex.term_g6 (tm : Py) (h : TmOK tm) (x : Ex) : ∀ (I : Option (List Key)
       · simp at hp
 
 /-! ### semantics of nested operands -/
+def Agg.isRank : Agg → Bool
+  | .rank _ _ => true
+  | _ => false
+
+/-- no `arr_rank` among the operands: its subscript expression is outside the arithmetic carrier (`rank_args` and
+`rank_index_spec` are its theorems); every other aggregate has a value in the carrier -/
+def Ex.rankFree : Ex → Bool
+  | .agg g _ => !g.isRank
+  | .op _ a b => a.rankFree && b.rankFree
+  | _ => true
+
 section Sem2
 open BigOperators
 variable {R : Type} [CommSemiring R]
@@ -1361,9 +1453,146 @@ def dotVal (d1 d2 : Dims) (A B : List Key → R) (idx : List Key) : R :=
   else if d2.isVec then ∑ k ∈ Finset.range d1.snd, A [idx.headD (.i 0), .i k] * B [.i k]
   else ∑ k ∈ Finset.range d1.snd, A [idx.headD (.i 0), .i k] * B [.i k, idx.getD 1 (.i 0)]
 
+/-- the value of an aggregate operand: list sum / product of the row-major entries, numpy's function of exactly that
+list, the number of outer keys; of a non-arrayed element as coded (`(x)` for sum/product, `0.0` otherwise) -/
+def aggVal (g : Agg) (e : Elem) : R :=
+  if e.arrayed then
+    match g with
+    | .sum => (e.vals ρ).sum
+    | .prod => (e.vals ρ).prod
+    | .mean => O.fn "mean" (e.vals ρ)
+    | .median => O.fn "median" (e.vals ρ)
+    | .std => O.fn "std" (e.vals ρ)
+    | .size => O.numv (toString e.keys.length)
+    | .rank _ _ => 0
+  else
+    match g with
+    | .sum => rv ρ e.name []
+    | .prod => rv ρ e.name []
+    | _ => O.numv "0.0"
+
+theorem chainM_add_eval (mk : List Key → Py) (gv : List Key → R) (hev : ∀ p, eval (car O ρ) σ (mk p) = .r (gv p))
+    (l : List (List Key)) (c : Py) (h : chain .add (l.map mk) = some c) :
+    eval (car O ρ) σ c = .r (l.map gv).sum := by
+  cases l with
+  | nil => simp [chain] at h
+  | cons x xs =>
+    simp only [List.map_cons, chain, Option.some.injEq] at h
+    subst h
+    have key : ∀ (l : List (List Key)) (acc : Py) (va : R), eval (car O ρ) σ acc = .r va →
+        eval (car O ρ) σ ((l.map mk).foldl (fun a y => .bin .add a y) acc) = .r (va + (l.map gv).sum) := by
+      intro l
+      induction l with
+      | nil => intro acc va h; simpa using h
+      | cons k ks ih =>
+        intro acc va h
+        simp only [List.map_cons, List.foldl_cons, List.sum_cons]
+        rw [ih _ _ (eval_add O ρ σ _ _ _ _ h (hev k)), add_assoc]
+    rw [key xs _ _ (hev x)]
+    simp
+
+theorem chainM_mul_eval (mk : List Key → Py) (gv : List Key → R) (hev : ∀ p, eval (car O ρ) σ (mk p) = .r (gv p))
+    (l : List (List Key)) (c : Py) (h : chain .mul (l.map mk) = some c) :
+    eval (car O ρ) σ c = .r (l.map gv).prod := by
+  cases l with
+  | nil => simp [chain] at h
+  | cons x xs =>
+    simp only [List.map_cons, chain, Option.some.injEq] at h
+    subst h
+    have key : ∀ (l : List (List Key)) (acc : Py) (va : R), eval (car O ρ) σ acc = .r va →
+        eval (car O ρ) σ ((l.map mk).foldl (fun a y => .bin .mul a y) acc) = .r (va * (l.map gv).prod) := by
+      intro l
+      induction l with
+      | nil => intro acc va h; simpa using h
+      | cons k ks ih =>
+        intro acc va h
+        simp only [List.map_cons, List.foldl_cons, List.prod_cons]
+        rw [ih _ _ (eval_mul O ρ σ _ _ _ _ h (hev k)), mul_assoc]
+    rw [key xs _ _ (hev x)]
+    simp
+
+theorem evalL_mk (mk : List Key → Py) (gv : List Key → R) (hev : ∀ p, eval (car O ρ) σ (mk p) = .r (gv p))
+    (l : List (List Key)) : evalL (car O ρ) σ (l.map mk) = (l.map gv).map V.r := by
+  induction l with
+  | nil => simp [evalL]
+  | cons x xs ih => simp [evalL, ih, hev]
+
+theorem listM_eval (mk : List Key → Py) (gv : List Key → R) (hev : ∀ p, eval (car O ρ) σ (mk p) = .r (gv p))
+    (l : List (List Key)) : eval (car O ρ) σ (.list (l.map mk)) = .lst (l.map gv) := by
+  simp only [eval, evalL_mk O ρ σ mk gv hev]
+  show listV ((l.map gv).map V.r) = _
+  simp only [listV, allR_map]
+
+theorem rowsM_evalL (mk : List Key → Py) (gv : List Key → R) (hev : ∀ p, eval (car O ρ) σ (mk p) = .r (gv p))
+    (ll : List (List (List Key))) :
+    evalL (car O ρ) σ (ll.map fun l => Py.list (l.map mk)) = (ll.map fun l => l.map gv).map V.lst := by
+  induction ll with
+  | nil => simp [evalL]
+  | cons l ls ih => simp only [List.map_cons, evalL, ih, listM_eval O ρ σ mk gv hev]
+
+theorem displayM_np (mk : List Key → Py) (e : Elem) (hev : ∀ p, eval (car O ρ) σ (mk p) = .r (rv ρ e.name p))
+    (fn : String) : eval (car O ρ) σ (npCall fn (e.displayM mk)) = .r (O.fn fn (e.vals ρ)) := by
+  cases hi : e.inner.isEmpty with
+  | true =>
+    have h := listM_eval O ρ σ mk (rv ρ e.name) hev e.paths
+    simp only [npCall, Elem.displayM, hi, if_true, rowsM_flat, eval, evalL] at h ⊢
+    rw [h]
+    simp [car, callV, Elem.vals]
+  | false =>
+    have hd : eval (car O ρ) σ (e.displayM mk)
+        = (if e.keys = [] then .lst [] else .lst2 (e.pathRows.map fun l => l.map (rv ρ e.name))) := by
+      simp only [Elem.displayM, hi, Bool.false_eq_true, if_false, eval, rowsM_rows mk e hi, List.map_map, Function.comp_def]
+      rw [rowsM_evalL O ρ σ mk (rv ρ e.name) hev]
+      by_cases hk : e.keys = []
+      · simp [hk, Elem.pathRows, car, listV, allR]
+      · simp only [hk, if_false]
+        have : (e.pathRows.map fun l => l.map (rv ρ e.name)) ≠ [] := by simp [Elem.pathRows, hk]
+        exact listV_lsts _ this
+    simp only [npCall, eval, evalL] at hd ⊢
+    rw [hd, vals_eq_mat ρ e hi]
+    by_cases hk : e.keys = []
+    · simp [hk, car, callV, Elem.pathRows]
+    · simp [hk, car, callV]
+
+/-- **aggregates as operands**: the aggregate's text (any time argument) evaluates to `aggVal` -/
+theorem aggTermT_eval (tm : Py) (g : Agg) (e : Elem) (hg : g.isRank = false) (p : Py) (h : aggTermT tm g e = some p) :
+    eval (car O ρ) σ p = .r (aggVal O ρ g e) := by
+  have hev : ∀ pth, eval (car O ρ) σ (refT tm e.name pth) = .r (rv ρ e.name pth) := fun pth => eval_refT O ρ σ tm _ pth
+  unfold aggTermT at h
+  cases ha : e.arrayed with
+  | true =>
+    simp only [ha, if_true] at h
+    cases g with
+    | sum =>
+      simp only [aggArrM, rowsM_flat, Option.map_eq_some_iff] at h
+      obtain ⟨c, hc, rfl⟩ := h
+      simp only [eval, chainM_add_eval O ρ σ _ _ hev _ c hc]
+      simp [aggVal, ha, Elem.vals]
+    | prod =>
+      simp only [aggArrM, rowsM_flat, Option.map_eq_some_iff] at h
+      obtain ⟨c, hc, rfl⟩ := h
+      simp only [eval, chainM_mul_eval O ρ σ _ _ hev _ c hc]
+      simp [aggVal, ha, Elem.vals]
+    | mean => simp only [aggArrM, Option.some.injEq] at h; subst h; rw [displayM_np O ρ σ _ e hev]; simp [aggVal, ha]
+    | median => simp only [aggArrM, Option.some.injEq] at h; subst h; rw [displayM_np O ρ σ _ e hev]; simp [aggVal, ha]
+    | std => simp only [aggArrM, Option.some.injEq] at h; subst h; rw [displayM_np O ρ σ _ e hev]; simp [aggVal, ha]
+    | size => simp only [aggArrM, Option.some.injEq] at h; subst h; simp [natPy, eval, car, aggVal, ha]
+    | rank neg k => simp [Agg.isRank] at hg
+  | false =>
+    simp only [ha, Bool.false_eq_true, if_false, Option.some.injEq] at h; subst h
+    cases g with
+    | sum => simp only [aggScalarM, eval, hev]; simp [aggVal, ha]
+    | prod => simp only [aggScalarM, eval, hev]; simp [aggVal, ha]
+    | mean => simp [aggScalarM, eval, car, aggVal, ha]
+    | median => simp [aggScalarM, eval, car, aggVal, ha]
+    | std => simp [aggScalarM, eval, car, aggVal, ha]
+    | size => simp [aggScalarM, eval, car, aggVal, ha]
+    | rank neg k => simp [Agg.isRank] at hg
+
 /-- **the numpy meaning of an operand tree**, entry by entry: element-wise operators act entry-wise with
 scalars broadcast, `dot` sums over the shared axis — by structural recursion over the tree -/
 def Ex.valD : Ex → List Key → R
+  | .agg g e, _ => aggVal O ρ g e
   | .num n l, _ => numVal O n l
   | .el e, idx => e.valAt ρ idx
   | .op (.ew o) a b, idx => ewVal O o (a.valD idx) (b.valD idx)
@@ -1394,6 +1623,7 @@ theorem subEl_eval (tm : Py) (x : Ex) (ix : List Key) (q : Py) (h : x.subEl tm i
   | el e => simpa [Ex.valD] using subT_eval O ρ σ tm e ix q h
   | num n l => simp [Ex.subEl] at h
   | op f a b => simp [Ex.subEl] at h
+  | agg g e => simp [Ex.subEl] at h
 
 theorem opt2_eval (f : Py → Py → Py) (g : R → R → R)
     (hf : ∀ x y vx vy, eval (car O ρ) σ x = .r vx → eval (car O ρ) σ y = .r vy → eval (car O ρ) σ (f x y) = .r (g vx vy))
@@ -1472,6 +1702,7 @@ theorem arrEl_dims (a : Ex) (h : a.arrEl = true) : ∃ m n, a.dims = some (.d2 m
   | el e => simp only [Ex.arrEl] at h; exact ⟨e.keys.length, e.inner.length, by simp [Ex.dims, elemDims, h]⟩
   | num n l => simp [Ex.arrEl] at h
   | op f a b => simp [Ex.arrEl] at h
+  | agg g e => simp [Ex.arrEl] at h
 
 
 theorem notArr_of_val (a : Ex) (h : a.dims = some .val) : a.arrEl = false := by
@@ -1486,12 +1717,17 @@ theorem eval_prodTerm' (x y : Py) (vx vy : R) (hx : eval (car O ρ) σ x = .r vx
 /-- **nested operands** (`clone_with_index` at every level, `arrayed_term` of the dot product): the term
 of the clone of ANY operand tree carrying index `idx` evaluates to the numpy entry `valD x idx`; without an
 index (scalar-valued trees) to `valD x []`.  Structural induction over the operand tree. -/
-theorem nested_spec (tm : Py) (x : Ex) :
+theorem nested_spec (tm : Py) (x : Ex) (hrf : x.rankFree = true) :
     (∀ idx p, x.arrEl = false → x.term tm (some idx) = some p →
       eval (car O ρ) σ p = .r (x.valD O ρ idx)) ∧
     (∀ p, x.arrEl = false → x.dims = some .val → x.term tm none = some p →
       eval (car O ρ) σ p = .r (x.valD O ρ [])) := by
   induction x with
+  | agg g e =>
+    have hg : g.isRank = false := by simpa [Ex.rankFree] using hrf
+    refine ⟨fun idx p _ hp => ?_, fun p _ _ hp => ?_⟩ <;>
+    · simp only [Ex.term] at hp
+      simpa [Ex.valD] using aggTermT_eval O ρ σ tm g e hg p hp
   | num n l =>
     refine ⟨fun idx p _ hp => ?_, fun p _ _ hp => ?_⟩ <;>
     · simp only [Ex.term, Option.some.injEq] at hp; subst hp
@@ -1502,6 +1738,9 @@ theorem nested_spec (tm : Py) (x : Ex) :
       simp only [Ex.term, Option.some.injEq] at hp; subst hp
       rw [eval_refT]; simp [Ex.valD, Elem.valAt, ha]
   | op f a b iha ihb =>
+    have hrf' : a.rankFree = true ∧ b.rankFree = true := by simpa [Ex.rankFree] using hrf
+    have iha := iha hrf'.1
+    have ihb := ihb hrf'.2
     have hopA : ∀ idx q, (if a.arrEl = true then a.subEl tm idx else a.term tm (some idx)) = some q →
         eval (car O ρ) σ q = .r (a.valD O ρ idx) := by
       intro idx q hq
@@ -1521,6 +1760,7 @@ theorem nested_spec (tm : Py) (x : Ex) :
       | el e => simpa [Ex.valD] using subT_eval O ρ σ tm e ix q hq
       | num n l => exact iha.1 ix q rfl hq
       | op g c d => exact iha.1 ix q rfl hq
+      | agg g e => exact iha.1 ix q rfl hq
     have hsB : ∀ ix q, (match b with | .el e => e.subT tm ix | _ => b.term tm (some ix)) = some q →
         eval (car O ρ) σ q = .r (b.valD O ρ ix) := by
       intro ix q hq
@@ -1528,6 +1768,7 @@ theorem nested_spec (tm : Py) (x : Ex) :
       | el e => simpa [Ex.valD] using subT_eval O ρ σ tm e ix q hq
       | num n l => exact ihb.1 ix q rfl hq
       | op g c d => exact ihb.1 ix q rfl hq
+      | agg g e => exact ihb.1 ix q rfl hq
     cases f with
     | ew o =>
       constructor
@@ -1794,6 +2035,7 @@ omit [CommSemiring R] in
 theorem dims_noArr (x : Ex) : x.anyArr = false → ∀ d, x.dims = some d → d = .val := by
   induction x with
   | num n l => intro _ d h; simpa [Ex.dims] using h.symm
+  | agg g e => intro _ d h; simpa [Ex.dims] using h.symm
   | el e => intro ha d h; simp only [Ex.anyArr] at ha; simp [Ex.dims, elemDims, ha] at h; exact h.symm
   | op f a b iha ihb =>
     intro ha d h
@@ -1815,6 +2057,7 @@ omit [CommSemiring R] in
 theorem term_none_dims (tm : Py) (x : Ex) : x.anyArr = false → ∀ p, x.term tm none = some p → x.dims = some .val := by
   induction x with
   | num n l => intro _ p _; rfl
+  | agg g e => intro _ p _; rfl
   | el e => intro ha p _; simp only [Ex.anyArr] at ha; simp [Ex.dims, elemDims, ha]
   | op f a b iha ihb =>
     intro ha p hp
@@ -1852,7 +2095,7 @@ theorem term_none_dims (tm : Py) (x : Ex) : x.anyArr = false → ∀ p, x.term t
 
 /-- **expansion of a nested equation** (`_handle_arrayed`, generic branch): every entry the expansion
 assigns evaluates to the numpy entry of the whole operand tree at that index. -/
-theorem expandE_spec (tm : Py) (x : Ex) (r : Result) (h : expandE tm x = some r) :
+theorem expandE_spec (tm : Py) (x : Ex) (hrf : x.rankFree = true) (r : Result) (h : expandE tm x = some r) :
     (∀ p, r = .scalar p → eval (car O ρ) σ p = .r (x.valD O ρ [])) ∧
     (∀ nm es, r = .vector nm es → ∀ kp ∈ es, eval (car O ρ) σ kp.2 = .r (x.valD O ρ [kp.1])) ∧
     (∀ rows, r = .matrix rows → ∀ i j row p, rows[i]? = some row → row[j]? = some p →
@@ -1860,9 +2103,10 @@ theorem expandE_spec (tm : Py) (x : Ex) (r : Result) (h : expandE tm x = some r)
   cases x with
   | num n l => simp [expandE] at h
   | el e => simp [expandE] at h
+  | agg g e => simp [expandE] at h
   | op f a b =>
     have hE : (Ex.op f a b).arrEl = false := rfl
-    have hs := nested_spec O ρ σ tm (Ex.op f a b)
+    have hs := nested_spec O ρ σ tm (Ex.op f a b) hrf
     simp only [expandE] at h
     split at h
     · simp at h
@@ -1906,14 +2150,15 @@ theorem expandE_spec (tm : Py) (x : Ex) (r : Result) (h : expandE tm x = some r)
 
 /-- what the Stock branch assigns: each listed sub-stock is the one stored under the index the flow term
 was cloned with, and the flow evaluates to the numpy entry of the operand tree at that index -/
-theorem stockAssign_spec (s : Elem) (x : Ex) (l : List (List Key × Py)) (h : stockAssign s x = some l) :
+theorem stockAssign_spec (s : Elem) (x : Ex) (hrf : x.rankFree = true) (l : List (List Key × Py)) (h : stockAssign s x = some l) :
     ∀ e ∈ l, G6 e.2 ∧ ∃ idx, s.path idx = some e.1 ∧ eval (car O ρ) σ e.2 = .r (x.valD O ρ idx) := by
   cases x with
   | num n l' => simp [stockAssign] at h
   | el e => simp [stockAssign] at h
+  | agg g e => simp [stockAssign] at h
   | op f a b =>
     have hE : (Ex.op f a b).arrEl = false := rfl
-    have hs := nested_spec O ρ σ tPrev (Ex.op f a b)
+    have hs := nested_spec O ρ σ tPrev (Ex.op f a b) hrf
     have hg := Ex.term_g6 tPrev tPrev_ok (Ex.op f a b)
     simp only [stockAssign] at h
     split at h
@@ -2030,6 +2275,7 @@ theorem expandE_wl (tm : Py) (htm : TmOK tm) (x : Ex) (r : Result) (h : expandE 
   cases x with
   | num n l => simp [expandE] at h
   | el e => simp [expandE] at h
+  | agg g e => simp [expandE] at h
   | op f a b =>
     have hg := Ex.term_g6 tm htm (Ex.op f a b)
     have hsc : ∀ r, ((Ex.op f a b).term tm none).map Result.scalar = some r → ∀ p ∈ r.exprs, WLb 0 p = true := by
@@ -2385,6 +2631,7 @@ theorem termC_good (tm : Py) (x : Ex) : ∀ I, x.termC ⟨true⟩ tm I I = x.ter
   induction x with
   | num n l => intro I; rfl
   | el e => intro I; rfl
+  | agg g e => intro I; rfl
   | op f a b iha ihb =>
     intro I
     cases f with
@@ -2401,6 +2648,7 @@ theorem expandEC_good (c : Cfg) (h : c.reindexAll = true) (tm : Py) (x : Ex) : e
   cases x with
   | num n l => rfl
   | el e => rfl
+  | agg g e => rfl
   | op f a b =>
     simp only [expandEC, expandE, vecEntriesC, vecEntriesE, matEntriesC, matEntriesE, termI_good c h]
 
@@ -2414,7 +2662,7 @@ carrying index `idx` — including every term the dot product obtains from a com
 `arrayed_term` — evaluates to the numpy entry `valD x idx`; scalar-valued trees without index to `valD x []`;
 and every entry the expansion of an equation assigns is the numpy entry of the whole tree at that index. -/
 def C10_nested_full (c : Cfg) : Prop :=
-  ∀ (R : Type) [CommSemiring R] (O : Ops R) (ρ : String → R) (σ : Nat → V R) (tm : Py) (x : Ex),
+  ∀ (R : Type) [CommSemiring R] (O : Ops R) (ρ : String → R) (σ : Nat → V R) (tm : Py) (x : Ex), x.rankFree = true →
     (∀ idx p, x.arrEl = false → x.termI c tm (some idx) = some p →
       eval (car O ρ) σ p = .r (x.valD O ρ idx)) ∧
     (∀ p, x.arrEl = false → x.dims = some .val → x.termI c tm none = some p →
@@ -2426,11 +2674,11 @@ def C10_nested_full (c : Cfg) : Prop :=
         eval (car O ρ) σ p = .r (x.valD O ρ [.i i, .i j])))
 
 theorem C10_nested_full_of_good (c : Cfg) (h : c.reindexAll = true) : C10_nested_full c := by
-  intro R _ O ρ σ tm x
+  intro R _ O ρ σ tm x hrf
   refine ⟨fun idx p ha hp => ?_, fun p ha hd hp => ?_, fun r hr => ?_⟩
-  · rw [termI_good c h] at hp; exact (nested_spec O ρ σ tm x).1 idx p ha hp
-  · rw [termI_good c h] at hp; exact (nested_spec O ρ σ tm x).2 p ha hd hp
-  · rw [expandEC_good c h] at hr; exact expandE_spec O ρ σ tm x r hr
+  · rw [termI_good c h] at hp; exact (nested_spec O ρ σ tm x hrf).1 idx p ha hp
+  · rw [termI_good c h] at hp; exact (nested_spec O ρ σ tm x hrf).2 p ha hd hp
+  · rw [expandEC_good c h] at hr; exact expandE_spec O ρ σ tm x hrf r hr
 
 variable (O : Ops R) (ρ : String → R) (σ : Nat → V R)
 
@@ -2466,32 +2714,34 @@ theorem el_mat_dims (A : String) (m n : Nat) (hm : 0 < m) : (Ex.el (Elem.mat A m
 operand trees), all sizes, all trees `u`, `w`: the text produced for result entry `i` evaluates to the
 matrix–vector product of `A` with the entry-wise `f` of the operands' entries -/
 theorem dot_mv_ew (tm : Py) (A : String) (m n : Nat) (hn : n ≠ 0) (o : EwOp) (u w : Ex)
-    (hu : u.dims = some (.d2 n 0)) (hw : w.dims = some (.d2 n 0)) (i : Fin m) (p : Py)
+    (hu : u.dims = some (.d2 n 0)) (hw : w.dims = some (.d2 n 0)) (hur : u.rankFree = true) (hwr : w.rankFree = true)
+    (i : Fin m) (p : Py)
     (h : (Ex.op .dot (.el (.mat A m n)) (.op (.ew o) u w)).term tm (some [.i i]) = some p) :
     eval (car O ρ) σ p = .r (Matrix.mulVec (valM ρ A m n)
       (fun k : Fin n => ewVal O o (u.valD O ρ [.i k]) (w.valD O ρ [.i k])) i) := by
-  rw [(nested_spec O ρ σ tm (Ex.op .dot (.el (.mat A m n)) (.op (.ew o) u w))).1 [.i i] p rfl h]
+  rw [(nested_spec O ρ σ tm (Ex.op .dot (.el (.mat A m n)) (.op (.ew o) u w)) (by simp [Ex.rankFree, hur, hwr])).1 [.i i] p rfl h]
   have hB : (Ex.op (.ew o) u w).dims = some (.d2 n 0) := by simp [Ex.dims, hu, hw, resolveEwD]
   rw [valD_dot_mv O ρ _ _ m n (.d2 n 0) hn rfl (el_mat_dims A m n (Fin.pos i)) hB i, matD_el]
   rfl
 
 /-- matrix · (matrix-valued element-wise expression): `dot(A, f(U, W))[i][j] = Σ_k A[i][k] * f(U[k][j], W[k][j])` -/
 theorem dot_mm_ew (tm : Py) (A : String) (m n q : Nat) (hn : n ≠ 0) (hq : q ≠ 0) (o : EwOp) (u w : Ex)
-    (hu : u.dims = some (.d2 n q)) (hw : w.dims = some (.d2 n q)) (i : Fin m) (j : Fin q) (p : Py)
+    (hu : u.dims = some (.d2 n q)) (hw : w.dims = some (.d2 n q)) (hur : u.rankFree = true) (hwr : w.rankFree = true)
+    (i : Fin m) (j : Fin q) (p : Py)
     (h : (Ex.op .dot (.el (.mat A m n)) (.op (.ew o) u w)).term tm (some [.i i, .i j]) = some p) :
     eval (car O ρ) σ p = .r ((valM ρ A m n *
       (Matrix.of fun (k : Fin n) (l : Fin q) => ewVal O o (u.valD O ρ [.i k, .i l]) (w.valD O ρ [.i k, .i l]))) i j) := by
-  rw [(nested_spec O ρ σ tm (Ex.op .dot (.el (.mat A m n)) (.op (.ew o) u w))).1 [.i i, .i j] p rfl h]
+  rw [(nested_spec O ρ σ tm (Ex.op .dot (.el (.mat A m n)) (.op (.ew o) u w)) (by simp [Ex.rankFree, hur, hwr])).1 [.i i, .i j] p rfl h]
   have hB : (Ex.op (.ew o) u w).dims = some (.d2 n q) := by simp [Ex.dims, hu, hw, resolveEwD]
   rw [valD_dot_mm O ρ _ _ m n q hn hq (el_mat_dims A m n (Fin.pos i)) hB i j, matD_el]
   rfl
 
 /-- dot ∘ dot: `A.dot(B.dot(x))[i] = (A *ᵥ (B *ᵥ x))[i]` for any vector-valued operand tree `x` -/
 theorem dot_dot_mv (tm : Py) (A B : String) (m n q : Nat) (hn : n ≠ 0) (hq : q ≠ 0) (x : Ex) (d : Dims)
-    (hd : d.isVec = true) (hx : x.dims = some d) (hr : d.rows = q) (i : Fin m) (p : Py)
+    (hd : d.isVec = true) (hx : x.dims = some d) (hr : d.rows = q) (hxr : x.rankFree = true) (i : Fin m) (p : Py)
     (h : (Ex.op .dot (.el (.mat A m n)) (.op .dot (.el (.mat B n q)) x)).term tm (some [.i i]) = some p) :
     eval (car O ρ) σ p = .r (Matrix.mulVec (valM ρ A m n) (Matrix.mulVec (valM ρ B n q) (x.vecD O ρ q)) i) := by
-  rw [(nested_spec O ρ σ tm _).1 [.i i] p rfl h]
+  rw [(nested_spec O ρ σ tm _ (by simp [Ex.rankFree, hxr])).1 [.i i] p rfl h]
   have hdv : d ≠ .val := by intro h'; subst h'; simp [Dims.isVec] at hd
   have hB : (Ex.op .dot (.el (.mat B n q)) x).dims = some (.d1 n) := by
     have hnp : 0 < n := Nat.pos_of_ne_zero hn
@@ -2510,10 +2760,10 @@ theorem dot_dot_mv (tm : Py) (A B : String) (m n q : Nat) (hn : n ≠ 0) (hq : q
 
 /-- element-wise ∘ dot: `(c ∘ A.dot(x))[i] = c[i] ∘ (A *ᵥ x)[i]` -/
 theorem ew_dot_mv (tm : Py) (o : EwOp) (cE : Ex) (A : String) (m n : Nat) (hn : n ≠ 0) (x : Ex) (d : Dims)
-    (hd : d.isVec = true) (hx : x.dims = some d) (i : Fin m) (p : Py)
+    (hd : d.isVec = true) (hx : x.dims = some d) (hcr : cE.rankFree = true) (hxr : x.rankFree = true) (i : Fin m) (p : Py)
     (h : (Ex.op (.ew o) cE (.op .dot (.el (.mat A m n)) x)).term tm (some [.i i]) = some p) :
     eval (car O ρ) σ p = .r (ewVal O o (cE.valD O ρ [.i i]) (Matrix.mulVec (valM ρ A m n) (x.vecD O ρ n) i)) := by
-  rw [(nested_spec O ρ σ tm _).1 [.i i] p rfl h, valD_ew,
+  rw [(nested_spec O ρ σ tm _ (by simp [Ex.rankFree, hcr, hxr])).1 [.i i] p rfl h, valD_ew,
     valD_dot_mv O ρ _ _ m n d hn hd (el_mat_dims A m n (Fin.pos i)) hx i, matD_el]
 
 end SemN
@@ -2547,7 +2797,7 @@ theorem C10_nested_witness (c : Cfg) (h : c.reindexAll = false) : ¬ C10_nested_
   | mk r =>
     simp only at h; subst h
     intro hf
-    have h1 := (hf Nat wOps wRho (fun _ => .bad) tNow wX).1 [.i 0]
+    have h1 := (hf Nat wOps wRho (fun _ => .bad) tNow wX rfl).1 [.i 0]
     have hb := wX_bad_value
     cases hp : wX.termI ⟨false⟩ tNow (some [.i 0]) with
     | none => rw [hp] at hb; simp at hb
@@ -2557,6 +2807,207 @@ theorem C10_nested_witness (c : Cfg) (h : c.reindexAll = false) : ¬ C10_nested_
       have := h1 p rfl hp
       rw [this, wX_numpy] at hb
       simp [rOf] at hb
+
+/-! ## 8. Wave 6 — mismatching shapes are rejected, never evaluated (operand trees; probed comparison) -/
+
+/-- numpy's shape of an operand tree, by numpy's own rules (`npEw`, `npDot`), independent of the code -/
+def Ex.npShape : Ex → Option Shape
+  | .num _ _ => some .sc
+  | .agg _ _ => some .sc
+  | .el e => some (elemDims e).shape
+  | .op f a b =>
+    match a.npShape, b.npShape with
+    | some s, some t => (match f with | .dot => npDot s t | _ => npEw s t)
+    | _, _ => none
+
+/-- the element-wise build succeeds iff one side is a value or the resolved dimensions agree -/
+theorem resolveEwD_some_iff (d1 d2 : Dims) :
+    (resolveEwD d1 d2).isSome = true ↔ (d1 = .val ∨ d2 = .val ∨ d1 = d2) := by
+  unfold resolveEwD
+  by_cases h1 : d1 = .val <;> by_cases h2 : d2 = .val <;> by_cases h3 : d1 = d2 <;> simp_all
+
+/-- dot succeeds iff not both are values and, for two arrays, the inner dimensions agree -/
+theorem resolveDotD_some_iff (d1 d2 : Dims) :
+    (resolveDotD d1 d2).isSome = true ↔
+      (¬ (d1 = .val ∧ d2 = .val) ∧
+        (d1 = .val ∨ d2 = .val ∨ (if d1.isVec then d1.rows = d2.rows else d1.snd = d2.rows))) := by
+  unfold resolveDotD
+  by_cases h1 : d1 = .val <;> by_cases h2 : d2 = .val <;> simp [h1, h2]
+  cases hv1 : d1.isVec <;> cases hv2 : d2.isVec <;> simp <;> split <;> simp_all
+
+theorem isVec_shape (d : Dims) (h : d.isVec = true) : d.shape = .v d.rows := by
+  cases d with
+  | val => simp [Dims.isVec] at h
+  | d1 m => rfl
+  | d2 m n =>
+    cases n with
+    | zero => rfl
+    | succ n => simp [Dims.isVec] at h
+
+theorem notVec_shape (d : Dims) (h : d.isVec = false) (hv : d ≠ .val) : d.shape = .mx d.rows d.snd ∧ d.snd ≠ 0 := by
+  cases d with
+  | val => exact absurd rfl hv
+  | d1 m => simp [Dims.isVec] at h
+  | d2 m n =>
+    cases n with
+    | zero => simp [Dims.isVec] at h
+    | succ n => simp [Dims.shape, Dims.rows, Dims.snd]
+
+theorem shape_sc (d : Dims) : d.shape = .sc ↔ d = .val := by
+  cases d with
+  | val => simp [Dims.shape]
+  | d1 m => simp [Dims.shape]
+  | d2 m n => simp [Dims.shape]; split <;> simp
+
+theorem resolveEwD_shape (d1 d2 d : Dims) (h : resolveEwD d1 d2 = some d) : npEw d1.shape d2.shape = some d.shape := by
+  unfold resolveEwD at h
+  by_cases h1 : d1 = .val
+  · subst h1
+    simp at h; subst h
+    simp [Dims.shape, npEw]
+  · by_cases h2 : d2 = .val
+    · subst h2
+      simp [h1] at h; subst h
+      have : d1.shape ≠ .sc := fun hs => h1 ((shape_sc d1).mp hs)
+      cases hs : d1.shape <;> simp_all [Dims.shape, npEw]
+    · simp [h1, h2] at h
+      obtain ⟨he, rfl⟩ := h
+      subst he
+      have : d1.shape ≠ .sc := fun hs => h1 ((shape_sc d1).mp hs)
+      cases hs : d1.shape <;> simp_all [npEw]
+
+theorem resolveDotD_shape (d1 d2 d : Dims) (h : resolveDotD d1 d2 = some d) : npDot d1.shape d2.shape = some d.shape := by
+  unfold resolveDotD at h
+  by_cases h1 : d1 = .val
+  · subst h1
+    by_cases h2 : d2 = .val
+    · subst h2; simp at h
+    · simp [h2] at h; subst h
+      have : d2.shape ≠ .sc := fun hs => h2 ((shape_sc d2).mp hs)
+      cases hs : d2.shape <;> simp_all [Dims.shape, npDot]
+  · by_cases h2 : d2 = .val
+    · subst h2
+      simp [h1] at h; subst h
+      have : d1.shape ≠ .sc := fun hs => h1 ((shape_sc d1).mp hs)
+      cases hs : d1.shape <;> simp_all [Dims.shape, npDot]
+    · simp only [h1, h2, if_false] at h
+      cases hv1 : d1.isVec with
+      | true =>
+        cases hv2 : d2.isVec with
+        | true =>
+          simp only [hv1, hv2, if_true] at h
+          rw [isVec_shape d1 hv1, isVec_shape d2 hv2]
+          split at h
+          · next he => simp only [Option.some.injEq] at h; subst h; simp [npDot, he, Dims.shape]
+          · simp at h
+        | false =>
+          simp only [hv1, hv2, if_true, Bool.false_eq_true, if_false] at h
+          obtain ⟨hs2, hn2⟩ := notVec_shape d2 hv2 h2
+          rw [isVec_shape d1 hv1, hs2]
+          split at h
+          · next he => simp only [Option.some.injEq] at h; subst h; simp [npDot, he, Dims.shape]
+          · simp at h
+      | false =>
+        obtain ⟨hs1, hn1⟩ := notVec_shape d1 hv1 h1
+        cases hv2 : d2.isVec with
+        | true =>
+          simp only [hv1, hv2, if_true, Bool.false_eq_true, if_false] at h
+          rw [hs1, isVec_shape d2 hv2]
+          split at h
+          · next he => simp only [Option.some.injEq] at h; subst h; simp [npDot, he, Dims.shape]
+          · simp at h
+        | false =>
+          simp only [hv1, hv2, Bool.false_eq_true, if_false] at h
+          obtain ⟨hs2, hn2⟩ := notVec_shape d2 hv2 h2
+          rw [hs1, hs2]
+          split at h
+          · next he => simp only [Option.some.injEq] at h; subst h; simp [npDot, he, Dims.shape, hn2]
+          · simp at h
+
+/-- **accepted ⇒ numpy's shape**, for every operand tree: when `resolve_dimensions` succeeds anywhere in the tree,
+numpy's rules give exactly the shape the resolved dimensions stand for -/
+theorem dims_npShape (x : Ex) : ∀ d, x.dims = some d → x.npShape = some d.shape := by
+  induction x with
+  | num n l => intro d h; simp only [Ex.dims, Option.some.injEq] at h; subst h; rfl
+  | agg g e => intro d h; simp only [Ex.dims, Option.some.injEq] at h; subst h; rfl
+  | el e => intro d h; simp only [Ex.dims, Option.some.injEq] at h; subst h; rfl
+  | op f a b iha ihb =>
+    intro d h
+    simp only [Ex.dims] at h
+    cases hda : a.dims with
+    | none => simp [hda] at h
+    | some d1 =>
+      cases hdb : b.dims with
+      | none => simp [hda, hdb] at h
+      | some d2 =>
+        simp only [hda, hdb] at h
+        simp only [Ex.npShape, iha d1 hda, ihb d2 hdb]
+        cases f with
+        | dot => exact resolveDotD_shape d1 d2 d h
+        | ew o => exact resolveEwD_shape d1 d2 d h
+        | nmul => exact resolveEwD_shape d1 d2 d h
+
+/-- an expansion needs resolved dimensions -/
+theorem expandE_dims (tm : Py) (x : Ex) (r : Result) (h : expandE tm x = some r) : ∃ d, x.dims = some d := by
+  cases x with
+  | num n l => simp [expandE] at h
+  | el e => simp [expandE] at h
+  | agg g e => simp [expandE] at h
+  | op f a b =>
+    simp only [expandE] at h
+    split at h
+    · simp at h
+    · split at h
+      · next hna =>
+        simp only [Option.map_eq_some_iff] at h
+        obtain ⟨p, hp, _⟩ := h
+        exact ⟨.val, term_none_dims tm _ (by simpa using hna) p hp⟩
+      · cases hd : (Ex.op f a b).dims with
+        | none => simp [hd] at h
+        | some d => exact ⟨d, rfl⟩
+
+/-- **mismatching shapes are rejected, never evaluated**: an equation whose operand tree has no numpy shape (some
+element-wise node with two arrays of different shapes, some dot node with disagreeing inner dimensions or two
+values — at ANY depth) has no expansion: no entry, no text, no value -/
+theorem expandE_rejects (tm : Py) (x : Ex) (h : x.npShape = none) : expandE tm x = none := by
+  cases he : expandE tm x with
+  | none => rfl
+  | some r =>
+    obtain ⟨d, hd⟩ := expandE_dims tm x r he
+    rw [dims_npShape x d hd] at h
+    simp at h
+
+theorem dimsC_good (c : DimCfg) (h : c.checkEw = true) (x : Ex) : x.dimsC c = x.dims := by
+  induction x with
+  | num n l => rfl
+  | el e => rfl
+  | agg g e => rfl
+  | op f a b iha ihb => cases f <;> simp [Ex.dimsC, Ex.dims, iha, ihb, h]
+
+/-- the rejection clause relative to the probed comparison: whatever `resolve_dimensions` accepts has a numpy shape -/
+def C10_rejects (c : DimCfg) : Prop :=
+  ∀ (x : Ex) (d : Dims), x.dimsC c = some d → x.npShape = some d.shape
+
+theorem C10_rejects_of_good (c : DimCfg) (h : c.checkEw = true) : C10_rejects c := by
+  intro x d hd
+  rw [dimsC_good c h] at hd
+  exact dims_npShape x d hd
+
+/-- 2×2 + 2×3 -/
+def wRej : Ex := .op (.ew .add) (.el (.mat "A" 2 2)) (.el (.mat "B" 2 3))
+
+/-- **witness**: when the element-wise `resolve_dimensions` returns the first array's dimensions without comparing,
+`2x2 + 2x3` (which passes the constructor: same row count) resolves to `[2, 2]` although numpy has no shape for it -/
+theorem C10_rejects_witness (c : DimCfg) (h : c.checkEw = false) : ¬ C10_rejects c := by
+  cases c with
+  | mk r =>
+    simp only at h; subst h
+    intro hf
+    have h1 : wRej.dimsC ⟨false⟩ = some (.d2 2 2) := by decide +kernel
+    have h2 : wRej.npShape = none := by decide +kernel
+    have := hf wRej _ h1
+    rw [h2] at this
+    simp at this
 
 /-! ## C10 at full strength (for the modelled operand kinds) -/
 
@@ -2580,11 +3031,11 @@ commutative semirings and value assignments:
 def C10_wave2 : Prop :=
   (∀ (R : Type) [CommSemiring R] (O : Ops R) (ρ : String → R) (σ : Nat → V R),
     (∀ (e : Elem) (fn : String), eval (car O ρ) σ (npCall fn e.display) = .r (O.fn fn (e.vals ρ))) ∧
-    (∀ (tm : Py) (x : Ex), (∀ idx p, x.arrEl = false → x.term tm (some idx) = some p →
+    (∀ (tm : Py) (x : Ex), x.rankFree = true → (∀ idx p, x.arrEl = false → x.term tm (some idx) = some p →
         eval (car O ρ) σ p = .r (x.valD O ρ idx)) ∧
       (∀ p, x.arrEl = false → x.dims = some .val → x.term tm none = some p →
         eval (car O ρ) σ p = .r (x.valD O ρ []))) ∧
-    (∀ (tm : Py) (x : Ex) (r : Result), expandE tm x = some r →
+    (∀ (tm : Py) (x : Ex) (r : Result), x.rankFree = true → expandE tm x = some r →
       (∀ p, r = .scalar p → eval (car O ρ) σ p = .r (x.valD O ρ [])) ∧
       (∀ nm es, r = .vector nm es → ∀ kp ∈ es, eval (car O ρ) σ kp.2 = .r (x.valD O ρ [kp.1])) ∧
       (∀ rows, r = .matrix rows → ∀ i j row p, rows[i]? = some row → row[j]? = some p →
@@ -2599,7 +3050,7 @@ def C10_wave2 : Prop :=
       (Ex.op .dot a b).valD O ρ [.i j] = Matrix.vecMul (a.vecD O ρ m) (b.matD O ρ m n) j) ∧
     (∀ (a b : Ex) (m : Nat) (d d' : Dims), d.isVec = true → d'.isVec = true → d.rows = m → a.dims = some d → b.dims = some d' → ∀ idx,
       (Ex.op .dot a b).valD O ρ idx = dotProduct (a.vecD O ρ m) (b.vecD O ρ m)) ∧
-    (∀ (s : Elem) (x : Ex) (l : List (List Key × Py)), stockAssign s x = some l →
+    (∀ (s : Elem) (x : Ex) (l : List (List Key × Py)), x.rankFree = true → stockAssign s x = some l →
       ∀ e ∈ l, G6 e.2 ∧ ∃ idx, s.path idx = some e.1 ∧ eval (car O ρ) σ e.2 = .r (x.valD O ρ idx))) ∧
   (∀ (tm : Py), TmOK tm → ∀ (x : Ex) (r : Result), expandE tm x = some r → ∀ p ∈ r.exprs, WLb 0 p = true ∧ Parses (pr p) p) ∧
   (TmOK tNow ∧ TmOK tPrev) ∧
@@ -2617,13 +3068,13 @@ theorem C10_wave2_holds : C10_wave2 := by
     fun nm init p hi hp => ⟨stockFs_wl nm init p hi hp, stockFs_parses nm init p hi hp⟩,
     stockAssignEl_refs, aggDim_spec, aggDim_none⟩
   intro R _ O ρ σ
-  exact ⟨agg_args O ρ σ, fun tm x => nested_spec O ρ σ tm x, fun tm x r h => expandE_spec O ρ σ tm x r h,
+  exact ⟨agg_args O ρ σ, fun tm x hrf => nested_spec O ρ σ tm x hrf, fun tm x r hrf h => expandE_spec O ρ σ tm x hrf r h,
     valD_ew O ρ, valD_nmul O ρ,
     fun a b m n p hn hp ha hb i j => valD_dot_mm O ρ a b m n p hn hp ha hb i j,
     fun a b m n d hn hd ha hb i => valD_dot_mv O ρ a b m n d hn hd ha hb i,
     fun a b m n d hn hd hr ha hb j => valD_dot_vm O ρ a b m n d hn hd hr ha hb j,
     fun a b m d d' hd hd' hr ha hb idx => valD_dot_vv O ρ a b m d d' hd hd' hr ha hb idx,
-    fun s x l h => stockAssign_spec O ρ σ s x l h⟩
+    fun s x l hrf h => stockAssign_spec O ρ σ s x hrf l h⟩
 
 /-- For ALL operator forms, operands (numbers, scalar elements, vectors and matrices of any size,
 indexed or named), indices, commutative semirings `R` and value assignments `ρ`:
@@ -2690,14 +3141,22 @@ def C10_full : Prop :=
   (∀ (st : Store) (h : List HOp) (g : Agg) (nm : String), (runHist st (h ++ [.agg g nm])).2 =
       (runHist st h).2 ++ [.term (aggTerm g ((runHist st (h.filter HOp.isSetup)).1.get nm))]) ∧
   -- wave 5: nested equations under the mechanism of the repaired code
-  C10_nested_full ⟨true⟩
+  C10_nested_full ⟨true⟩ ∧
+  -- wave 6: mismatching shapes are rejected, never evaluated — operand trees of any depth
+  C10_rejects ⟨true⟩ ∧
+  (∀ (tm : Py) (x : Ex), x.npShape = none → expandE tm x = none) ∧
+  (∀ d1 d2 : Dims, (resolveEwD d1 d2).isSome = true ↔ (d1 = .val ∨ d2 = .val ∨ d1 = d2)) ∧
+  (∀ d1 d2 : Dims, (resolveDotD d1 d2).isSome = true ↔
+      (¬ (d1 = .val ∧ d2 = .val) ∧
+        (d1 = .val ∨ d2 = .val ∨ (if d1.isVec then d1.rows = d2.rows else d1.snd = d2.rows))))
 
 theorem C10_full_holds : C10_full := by
   refine ⟨fun f a b r h p hp => ⟨expand_wl f a b r h p hp, expand_parses f a b r h p hp⟩,
     fun g e p h => ⟨aggTerm_wl g e p h, aggTerm_parses g e p h⟩, ?_, ?_, size_spec, dims_spec,
     expand_none_of_resolve, expand_none_of_ctor, matEntries_entry, vecEntries_entry, C10_wave2_holds,
     runHist_store, use_after_history, agg_after_history,
-    C10_nested_full_of_good ⟨true⟩ rfl⟩
+    C10_nested_full_of_good ⟨true⟩ rfl, C10_rejects_of_good ⟨true⟩ rfl, expandE_rejects,
+    resolveEwD_some_iff, resolveDotD_some_iff⟩
   · intro R _ O ρ σ
     exact ⟨elementwise_spec O ρ σ, nmul_spec O ρ σ, dot_mm O ρ σ, dot_mv O ρ σ, dot_vm O ρ σ, dot_vv O ρ σ,
       fun a b idx p hb ha h => dot_scalar_right O ρ σ a b idx hb ha p h,
@@ -2738,6 +3197,10 @@ example :
 #print axioms C10_wave2_holds
 #print axioms C10_nested_full_of_good
 #print axioms C10_nested_witness
+#print axioms C10_rejects_of_good
+#print axioms C10_rejects_witness
+#print axioms expandE_rejects
+#print axioms aggTermT_eval
 #print axioms dot_mv_ew
 #print axioms dot_dot_mv
 #print axioms agg_args_mat
